@@ -377,6 +377,7 @@ func TestC08Transparency(t *testing.T) {
 			fault = &faultSpec{at: rapid.IntRange(0, total).Draw(rt, "faultAt"), short: rapid.Bool().Draw(rt, "short"), transient: rapid.Bool().Draw(rt, "transient")}
 		}
 		refServer := rapid.Bool().Draw(rt, "refServer")
+		eofWithData := rapid.Bool().Draw(rt, "eofWithData")
 		seed := rapid.Uint64().Draw(rt, "seed")
 		plain := gen.Fill(seed, total)
 		back := gen.Fill(seed+1, min(total, 70000))
@@ -384,8 +385,11 @@ func TestC08Transparency(t *testing.T) {
 		force := *crypto.DefaultOptions(true, true)
 		var fail string
 		labels := []string{fmt.Sprintf("ref-server:%v", refServer)}
+		if eofWithData && !refServer {
+			labels = append(labels, "last-bytes-with-eof")
+		}
 		leak := sim.Bubble(t, func() {
-			a, b := segconn.Pair(segconn.Plan{Sizes: []int{rbuf * 3}, Cycle: true}, segconn.Plan{Sizes: []int{4096}, Cycle: true})
+			a, b := segconn.Pair(segconn.Plan{Sizes: []int{rbuf * 3}, Cycle: true}, segconn.Plan{Sizes: []int{4096}, Cycle: true, EOFWithData: eofWithData})
 			type srv struct {
 				conn net.Conn
 				res  *ref.MSEResult
@@ -471,6 +475,17 @@ func TestC08Transparency(t *testing.T) {
 			sent := len(a.Wire()) - wireStart
 			got := make([]byte, 0, sent)
 			buf := make([]byte, rbuf)
+			if eofWithData {
+				// the sender closes; the last bytes arrive together with io.EOF
+				a.CloseWrite()
+				for {
+					n, err := sink.Read(buf)
+					got = append(got, buf[:n]...)
+					if err != nil {
+						break
+					}
+				}
+			}
 			for len(got) < sent {
 				n, err := sink.Read(buf)
 				got = append(got, buf[:n]...)
